@@ -95,6 +95,7 @@ type vsdAt struct {
 	Subh string `json:"subh"`
 	Blkh string `json:"blkh"`
 	Cfh  string `json:"cfh"`
+	Rs   string `json:"rs"`
 }
 
 type vsdAct struct {
@@ -114,6 +115,7 @@ type vsdCall struct {
 
 type vsdObs struct {
 	Pool   int       `json:"pool"`
+	Dial   int       `json:"dial"`
 	Stop   int       `json:"stop"`
 	Calls  []vsdCall `json:"calls"`
 	Reopen int       `json:"reopen"`
@@ -265,6 +267,21 @@ func vsdWhere(dump string) vsdAt {
 			}
 		case vsdHas(b, "(*blockManager).Start.func1"):
 			at.Cfh = "first"
+		case vsdHas(b, "(*rescanState).rescan"):
+			switch {
+			case vsdHas(b, "MarkAsConfirmed"):
+				at.Rs = "mark"
+			case vsdHas(b, "(*ChainService).GetCFilter", "sync.(*Mutex).Lock"):
+				at.Rs = "flock"
+			case vsdHas(b, "(*ChainService).GetCFilter"):
+				at.Rs = "filter"
+			case vsdHas(b, "(*ChainService).GetBlock"):
+				at.Rs = "block"
+			case vsdHas(b, "[select"), vsdHas(b, "[chan receive"):
+				at.Rs = "cur"
+			default:
+				at.Rs = "running"
+			}
 		}
 	}
 	return at
@@ -344,7 +361,7 @@ func (r *vsdRun) log(a vsdAct, err error, dump string) {
 		a.Res = "ok"
 	}
 	o := r.obs
-	o.Calls = append([]vsdCall(nil), r.obs.Calls...)
+	o.Calls = append(make([]vsdCall, 0, len(r.obs.Calls)), r.obs.Calls...)
 	s := vsdStepOut{Act: a, Obs: o, T: time.Since(r.t0).Milliseconds(), Dump: dump}
 	if err != nil {
 		s.Err = err.Error()
@@ -565,7 +582,7 @@ func vsdRunOne(p vsdPathIn, scratch string) (out vsdPathOut, rerr error) {
 	r := &vsdRun{t0: time.Now(), rng: rand.New(rand.NewSource(seed*7919 + int64(p.ID))),
 		done: map[int]chan struct{}{}, stopCh: make(chan struct{}), info: map[string]string{}}
 	pool := p.InitObs.Pool
-	r.obs = vsdObs{Pool: pool, Stop: vsdSNot, Calls: []vsdCall{}, Reopen: vsdRNot}
+	r.obs = vsdObs{Pool: pool, Dial: p.InitObs.Dial, Stop: vsdSNot, Calls: []vsdCall{}, Reopen: vsdRNot}
 	out.InitObs = r.obs
 
 	// split the scenario
@@ -622,7 +639,14 @@ func vsdRunOne(p vsdPathIn, scratch string) (out vsdPathOut, rerr error) {
 	defer os.RemoveAll(r.dir)
 	persist := r.rng.Intn(2) == 0
 	r.info["persist"] = fmt.Sprint(persist)
-	svc, db, cfg, err := vsdStartClient(n, r.dir, []*vnNode{nd}, persist)
+	nodes := []*vnNode{nd}
+	if p.InitObs.Dial == 1 {
+		// an unreachable permanent peer: the dial blocks (black hole) for
+		// dialWait, inside a goroutine ChainService.Stop waits for
+		n.dialWait = 3 * time.Second
+		nodes = append(nodes, n.AddNode(vnBehaviour{Kind: "honest"}))
+	}
+	svc, db, cfg, err := vsdStartClient(n, r.dir, nodes, persist)
 	if err != nil {
 		return out, err
 	}
@@ -980,17 +1004,17 @@ func vsdParent(p vsdPathIn, raw []byte, scratch string, idx int, boundS int) (ou
 				}
 				obs.Calls = append(obs.Calls, vsdCall{K: s.Act.K, M: s.Act.M, St: st})
 				out.Steps = append(out.Steps, vsdStepOut{Act: vsdAct{Op: "Begin", K: s.Act.K, M: s.Act.M, Res: "ok"},
-					Obs: vsdObs{Pool: obs.Pool, Stop: obs.Stop, Calls: append([]vsdCall(nil), obs.Calls...)}})
+					Obs: vsdObs{Pool: obs.Pool, Dial: obs.Dial, Stop: obs.Stop, Calls: append(make([]vsdCall, 0, 4), obs.Calls...)}})
 			}
 			if s.Act.Op == "Stop" {
 				obs.Stop = vsdSRun
 				out.Steps = append(out.Steps, vsdStepOut{Act: vsdAct{Op: "Stop", M: s.Act.M, Res: "ok"},
-					Obs: vsdObs{Pool: obs.Pool, Stop: obs.Stop, Calls: append([]vsdCall(nil), obs.Calls...)}})
+					Obs: vsdObs{Pool: obs.Pool, Dial: obs.Dial, Stop: obs.Stop, Calls: append(make([]vsdCall, 0, 4), obs.Calls...)}})
 			}
 		}
 		obs.Stop = vsdSHung
 		out.Steps = append(out.Steps, vsdStepOut{Act: vsdAct{Op: "Hang", Res: "panic"},
-			Obs: vsdObs{Pool: obs.Pool, Stop: obs.Stop, Calls: append([]vsdCall(nil), obs.Calls...)},
+			Obs: vsdObs{Pool: obs.Pool, Dial: obs.Dial, Stop: obs.Stop, Calls: append(make([]vsdCall, 0, 4), obs.Calls...)},
 			Dump: vsdTail(se[j:], 20000)})
 		return
 	}
